@@ -30,7 +30,7 @@ type typing struct {
 	holds func(v *Val) bool
 	// admits reports whether a top-level value of kind k can inhabit the type (for the static admissibility prediction)
 	kinds map[kind]bool
-	elem  map[kind]bool // kinds of collection elements / map values (nil = anything)
+	elem  map[kind]bool       // kinds of collection elements / map values (nil = anything)
 	ctor  func(v *Val) string // type of the local through which a value is built (default: elk)
 }
 
